@@ -90,6 +90,8 @@ structure C02Obs where
   pre : Nat
   ready : Nat
   onError : Nat
+  /-- `on_end_of_content` notifications of the filter -/
+  eoc : Nat
   /-- answers seen on the wire: number of 200 answers, number of error answers, all well framed -/
   n200 : Nat
   nErr : Nat
@@ -105,7 +107,9 @@ deriving Repr
 connection answered with an error or closed, application sees a request at most once" — observable part -/
 def c02ok (o : C02Obs) : Bool :=
   !o.exc && !o.specCrash && o.probeOk && (o.reset || o.closed) &&
-  o.ready ≤ o.specApps && o.pre ≤ o.specPre && o.onError ≤ o.pre &&
+  o.ready ≤ o.specApps && o.pre ≤ o.specPre &&
+  -- each early-called filter is told at most one of: upload failed / content complete (C02 `on_error_at_most_once`)
+  o.onError + o.eoc ≤ o.pre && o.eoc ≤ o.ready &&
   (o.reset || (o.n200 == o.ready && o.framed))
 
 end Cppcms.C01.Spec
